@@ -40,6 +40,8 @@ STRENGTHENED = {
     "C01-stale-inflater-output": "`sess multi`",
     "C07-reclaim-blocking-lock": "`faults stall-readloop` + fact `readLoopNeverWaitsForWriteLock`",
     "C14-broadcaster-close-twice": "own suite: broadcaster closed twice, the released frames re-used at once",
+    "C18-zero-copy-masks-caller-slice": "own write-apis: caller payloads are compared DURING every transport write the call causes (observer in the in-memory transport), larger sizes and the binary opcode",
+    "C19-lazy-client-session": "`racy session-first-use`: the first uses of a connection's session storage from several goroutines at once (race detector + all stores present), registered for C19",
 }
 STRENGTHENED.update(json.load(open(os.path.join(ROOT, "seeded", "strengthened.json"))) if os.path.exists(os.path.join(ROOT, "seeded", "strengthened.json")) else {})
 
